@@ -39,7 +39,7 @@ def strat1d(tier):
         return st.builds(lambda n, L, x0, rough, num_r, num_s, s_r, s_s, fl, ic, ns, k, dtl: dict(model=md, mesh=dict(kind="uni", n=n, length=L, x0=x0), num=(num_r if rough else num_s),
                                                                                           state=(s_r if rough else s_s), flux=fl, integ=ic[0], cfl=ic[1], nsteps=ns, shift=k,
                                                                                           dtlocal=(dtl and ic[0] != "gear")),
-                         st.one_of(st.integers(2, 4), st.integers(2, nmax)), gen.logf(-1, 1), st.one_of(st.just(0.0), gen.f(-2, 2)), st.booleans(), gen.num_robust(), gen.num_any(),
+                         st.one_of(st.integers(2, 4), st.integers(2, nmax), st.integers(2, nmax), st.sampled_from([129, 300])), gen.logf(-1, 1), st.one_of(st.just(0.0), gen.f(-2, 2)), st.booleans(), gen.num_robust(), gen.num_any(),
                          gen.state_for(md, True, lnrange=1.0, machmax=1.5), gen.state_for(md, False, lnrange=0.7, machmax=1.2, smooth_amp=0.05),
                          st.sampled_from(cases.flux_names(fmd)), st.one_of(explicit, explicit, implicit), st.integers(0, 6), st.integers(-40, 40), st.sampled_from([False, False, True]))
     return _models().flatmap(cfg)
@@ -85,8 +85,8 @@ def check1d(case):
     implicit = cases.is_implicit(case["integ"])
     labels = ["model:" + md["name"], "integ:" + case["integ"], "num:" + case["num"].get("limiter", case["num"]["name"]), "n:%s" % (n if n <= 3 else ">3"), "steps:%d" % min(case["nsteps"], 2)]
     nt = (k % n != 0) and any(not np.array_equal(a, b) for a, b in zip(qA, qB))
-    if case["nsteps"] == 0:
-        return dict(nontrivial=nt, labels=labels)
+    if case["nsteps"] == 0 or n > 100:          # large meshes: operator only
+        return dict(nontrivial=nt, labels=labels + (["big"] if n > 100 else []))
     qsc, _a = sim.state_scales(P.smd, P.prim)
     mk = lambda: cases.build_integrator(case["integ"], P.mesh, P.disc)
     dtl = bool(case.get("dtlocal"))
